@@ -161,6 +161,87 @@ func (d *c18DB) resync(regen bool) c18ResyncStatus {
 	}
 }
 
+// load reads the named principals the way a running deployment does: the admin API computes and stores a
+// principal's channels and roles when it is read, and a user authenticating does the same.
+func (d *c18DB) load(c *c18Case, names []string) {
+	for _, n := range names {
+		for _, p := range c.Principals {
+			if p.Name != n {
+				continue
+			}
+			if p.IsRole {
+				d.must("GET", "/{{.db}}/_role/"+n, "", 200)
+			} else {
+				d.must("GET", "/{{.db}}/_user/"+n, "", 200)
+				if resp := d.rt.SendUserRequest("GET", "/{{.db}}/", "", n); resp.Code != 200 {
+					panic(c18Abort{fmt.Sprintf("%s: GET / as %s -> %d", d.name, n, resp.Code)})
+				}
+			}
+		}
+	}
+}
+
+func c18FindKey(v any, key string, visit func(any)) {
+	switch x := v.(type) {
+	case map[string]any:
+		for k, e := range x {
+			if k == key {
+				visit(e)
+			} else {
+				c18FindKey(e, key, visit)
+			}
+		}
+	case []any:
+		for _, e := range x {
+			c18FindKey(e, key, visit)
+		}
+	}
+}
+
+// storedUserState classifies the stored user document without loading the user:
+// channels (computed+valid | pending | never computed) x roles (pending | not pending).
+func (d *c18DB) storedUserState(name string) string {
+	dbc := d.rt.GetDatabase()
+	raw, _, err := dbc.MetadataStore.GetRaw(d.rt.Context(), dbc.MetadataKeys.UserKey(name))
+	if err != nil {
+		panic(c18Abort{d.name + ": raw read of user " + name + ": " + err.Error()})
+	}
+	var v map[string]any
+	if err := json.Unmarshal(raw, &v); err != nil {
+		panic(c18Abort{d.name + ": user document unparsable"})
+	}
+	scope := any(v)
+	if ca, ok := v["collection_access"]; ok {
+		scope = ca
+	}
+	chInval, chComputed := false, false
+	c18FindKey(scope, "channel_inval_seq", func(e any) {
+		if f, ok := e.(float64); ok && f > 0 {
+			chInval = true
+		}
+	})
+	c18FindKey(scope, "all_channels", func(e any) {
+		if m, ok := e.(map[string]any); ok && len(m) > 0 {
+			chComputed = true
+		}
+	})
+	rolesPending := false
+	if f, ok := v["role_inval_seq"].(float64); ok && f > 0 {
+		rolesPending = true
+	}
+	ch := "channels_never_computed"
+	switch {
+	case chInval:
+		ch = "channels_pending"
+	case chComputed:
+		ch = "channels_valid"
+	}
+	if rolesPending {
+		return ch + "_roles_pending"
+	}
+	return ch + "_roles_not_pending"
+}
+
 // ---------------------------------------------------------------------------------------------
 // observation
 
@@ -197,6 +278,15 @@ type c18Obs struct {
 	Users map[string]c18PrincObs `json:"users"`
 	Roles map[string]c18PrincObs `json:"roles"`
 	Views map[string]c18UserView `json:"views"`
+}
+
+func c18Contains(xs []string, x string) bool {
+	for _, y := range xs {
+		if y == x {
+			return true
+		}
+	}
+	return false
 }
 
 func c18Sorted(m map[string]struct{}) []string {
@@ -488,9 +578,10 @@ func c18StatusMapDiff(r, f map[string]int) (string, []string) {
 }
 
 type c18Env struct {
-	t        *testing.T
-	run      *vlib.Run
-	diagSeen atomic.Int32 // tombstone diagnostics are counted always, spelled out only a few times
+	t              *testing.T
+	run            *vlib.Run
+	diagSeen       atomic.Int32 // tombstone diagnostics are counted always, spelled out only a few times
+	storedAtResync sync.Map     // case index -> stored state of each user when the function changed
 }
 
 func (e *c18Env) diagNote(format string, a ...any) {
@@ -505,7 +596,7 @@ func (e *c18Env) witness(c *c18Case, extra map[string]any) map[string]any {
 		"f1_source":   c.F1.Source(false),
 		"f2_source":   c.F2.Source(false),
 		"f2_in_fresh": c.F2.Source(true),
-		"how_to_replay": "R: RestTester (persistent config, rosmar, conflicts allowed via EnableAllowConflicts) with sync function f1_source; create principals; PUT each push as " +
+		"how_to_replay": "R: RestTester (persistent config, rosmar, conflicts allowed via EnableAllowConflicts) with sync function f1_source; create principals; (pushes[:late_from], then GET _user/_role of loaded_before_late_pushes and one authenticated GET / per user, then pushes[late_from:], then the same for loaded_before_resync; nobody else is read before the resync) PUT each push as " +
 			"/{keyspace}/<doc>?new_edits=false with _revisions{start,ids=[digest]+anc} (and _deleted) in the listed order; PUT /{keyspace}/_config/sync f2_source; POST /{db}/_offline; " +
 			"POST /{db}/_resync?action=start[&regenerate_sequences=true]; wait for completed; POST /{db}/_online; read. F: fresh RestTester with f2_in_fresh, same principals, same pushes. " +
 			"Re-run only this case: VERIF_CASE=<case> VERIF_SEED=<seed> ./check C18 <tier>",
@@ -536,7 +627,14 @@ func (e *c18Env) runCase(idx int) {
 	run := e.run
 	var c *c18Case
 	if idx >= c18FixedBase {
-		c = c18FixedCases(c18FixedBase)[idx-c18FixedBase]
+		for _, fc := range c18FixedCases(c18FixedBase) {
+			if fc.Idx == idx {
+				c = fc
+			}
+		}
+		if c == nil {
+			return
+		}
 		run.Count("fixed_histories_run", 1)
 	} else {
 		c = c18GenCase(run.CaseRand(idx), idx)
@@ -564,11 +662,42 @@ func (e *c18Env) runCase(idx int) {
 	R := &c18DB{t: e.t, rt: rtR, name: "R"}
 	rtR.GetDatabase().EnableAllowConflicts(e.t)
 	R.createPrincipals(c.Principals)
-	for _, rev := range c.Revs {
+	for _, rev := range c.Revs[:c.LateFrom] {
+		R.push(rev)
+	}
+	R.load(c, c.LoadEarly)
+	for _, rev := range c.Revs[c.LateFrom:] {
 		R.push(rev)
 	}
 	R.settle()
-	before := R.observe(c) // state under f1 (for the "did the resync have anything to do" accounting)
+	R.load(c, c.LoadLate)
+	run.Count("principals_loaded_before_late_writes", len(c.LoadEarly))
+	run.Count("principals_loaded_before_resync", len(c.LoadLate))
+	run.Count("principals_not_loaded_before_resync", len(c.Principals)-len(c.LoadLate))
+	run.Count("writes_after_first_load", len(c.Revs)-c.LateFrom)
+	switch len(c.LoadLate) {
+	case 0:
+		run.Count("cases_no_principal_loaded_before_resync", 1)
+	case len(c.Principals):
+		run.Count("cases_all_principals_loaded_before_resync", 1)
+	default:
+		run.Count("cases_some_principals_loaded_before_resync", 1)
+	}
+	// stored state of every user at the moment the function changes (raw read: does not load the principal)
+	pending := map[string]string{}
+	for _, p := range c.Principals {
+		if p.IsRole {
+			continue
+		}
+		st := R.storedUserState(p.Name)
+		pending[p.Name] = st
+		run.Count("users_at_resync_"+st, 1)
+	}
+	// state under f1, documents only (reading principals here would load them and hide pending invalidations)
+	before := &c18Obs{Docs: map[string]c18DocObs{}}
+	for _, doc := range c.Docs {
+		before.Docs[doc.ID] = R.observeDoc(doc.ID)
+	}
 	R.must("PUT", "/{{.keyspace}}/_config/sync", f2src, 200)
 	R.must("POST", "/{{.db}}/_offline", "", 200)
 	// the database refuses document writes while offline / resyncing: writes cannot race a resync in this version
@@ -615,6 +744,7 @@ func (e *c18Env) runCase(idx int) {
 	obsF := F.observe(c)
 	truth := F.evaluateLeaves(c)
 
+	e.storedAtResync.Store(c.Idx, pending)
 	e.compare(c, before, obsR, obsF, truth, st1, writes1)
 
 	// ---- second resync: must change nothing
@@ -710,6 +840,9 @@ func (e *c18Env) compare(c *c18Case, before, R, F *c18Obs, truth map[string]c18T
 		m["function_evaluated_per_leaf"] = truth
 		m["first_resync_status"] = st1
 		m["documents_written_by_first_resync"] = writes1
+		if st, ok := e.storedAtResync.Load(c.Idx); ok {
+			m["stored_user_state_when_the_function_changed"] = st
+		}
 		return e.witness(c, m)
 	}
 	// names (as they appear in _sync.access / role_access keys) whose grants differ between R and the reference
@@ -881,7 +1014,7 @@ func (e *c18Env) compare(c *c18Case, before, R, F *c18Obs, truth map[string]c18T
 		}
 		differs[p.Name] = true
 		run.Violation("principal-effective-access", "C18|effective-access-differs|cause="+causeOf(p),
-			fmt.Sprintf("%s %s: after resync channels %v roles %v; from scratch under f2 channels %v roles %v", what, p.Name, pr.Channels, pr.Roles, pf.Channels, pf.Roles),
+			fmt.Sprintf("%s %s (loaded before the resync: %v): after resync channels %v roles %v; from scratch under f2 channels %v roles %v", what, p.Name, c18Contains(c.LoadLate, p.Name), pr.Channels, pr.Roles, pf.Channels, pf.Roles),
 			extra(map[string]any{"principal": p.Name}))
 	}
 	// a user inherits the difference of a role it holds
@@ -978,8 +1111,8 @@ func TestVerif_C18_Resync(t *testing.T) {
 	run.Note("writes racing a resync are out of reach in this version: POST /{db}/_resync requires the database to be offline (rest/api.go handlePostResync) and an offline/resyncing database answers document writes with 503 (probed in every case: counter writes_refused_while_offline)")
 	n := run.N(40, 600)
 	var jobs []int
-	for i := range c18FixedCases(c18FixedBase) {
-		jobs = append(jobs, c18FixedBase+i)
+	for _, fc := range c18FixedCases(c18FixedBase) {
+		jobs = append(jobs, fc.Idx)
 	}
 	for i := 0; i < n; i++ {
 		jobs = append(jobs, i)
